@@ -319,7 +319,7 @@ def run_coupled(prob):
 
     try:
         prob.run_model()
-    except ValueError as e:
-        if "infs or NaNs" in str(e):
-            raise Inconclusive("coupled iteration diverged to NaN")
+    except (ValueError, RuntimeError) as e:
+        if "infs or NaNs" in str(e) or "singular" in str(e).lower():
+            raise Inconclusive("coupled iteration diverged (%s)" % str(e)[:60])
         raise
